@@ -732,7 +732,7 @@ func TestSWorldRandom(t *testing.T) {
 }
 
 func runSScenario(t *testing.T, ops *opsWriter, rng *rand.Rand, steps int, hostile bool) {
-	synctest.Test(t, func(t *testing.T) {
+	bubble(t, func(t *testing.T) {
 		cfg := sCfg{settings: rng.Intn(5) != 0, disable: false}
 		r := startS(t, ops, cfg)
 		defer r.teardown()
